@@ -681,14 +681,37 @@ fn check_c16(cases: &[Case], results: &[Option<RunResult>]) -> Vec<Violation> {
                 // whitespace-free view: a word (with its affixes) may be wrapped
                 let text: String = lines.join("\n").chars().filter(|ch| !ch.is_whitespace()).collect();
                 let plain_flow = !has_element(&dom, &["table", "ul", "ol", "blockquote", "h1", "h2", "h3", "h4", "h5", "h6", "pre"]);
+                let strike_on = c.spec.cfg.strike != 2;
                 walk(&dom, &mut |n, anc| {
-                    if (n.is("em") || n.is("i")) && !anc.iter().any(|a| a.is("pre")) {
+                    // (start, end, struck) of the element kinds with affixes
+                    let kind: Option<(usize, usize, bool)> = if n.is("em") || n.is("i") {
+                        Some((2, 3, false))
+                    } else if n.is("strong") {
+                        Some((4, 5, false))
+                    } else if n.is("s") || n.is("del") {
+                        Some((6, 7, true))
+                    } else if n.is("code") {
+                        Some((8, 9, false))
+                    } else {
+                        None
+                    };
+                    // only where no other element's strikeout or affixes interfere
+                    let clean = !anc.iter().any(|a| a.is("pre") || a.is("s") || a.is("del") || a.is("sup") || a.is("a"));
+                    if let (Some((si, ei, struck)), true) = (kind, clean) {
                         if let [DNode::Text(t)] = n.kids() {
                             let toks: Vec<&str> = t.split_whitespace().collect();
                             if toks.len() == 1 && !t.starts_with(char::is_whitespace) && !t.ends_with(char::is_whitespace) {
-                                let want = format!("{}{}{}", custom[2], toks[0], custom[3]);
-                                if plain_flow && text.contains(toks[0]) && !text.contains(&want) {
-                                    v.push(viol(i, "emphasis affixes are not verbatim around the element", format!("wanted {:?}", want), None));
+                                let body: String = if struck && strike_on {
+                                    toks[0].chars().flat_map(|ch| if cw(ch) > 0 { vec![ch, '\u{336}'] } else { vec![ch] }).collect()
+                                } else {
+                                    toks[0].to_string()
+                                };
+                                let want = format!("{}{}{}", custom[si], body, custom[ei]);
+                                let want_ns: String = want.chars().filter(|ch| !ch.is_whitespace()).collect();
+                                // verbatim: the suffix must not be followed by a strike mark of its own
+                                let verbatim = text.match_indices(&want_ns).any(|(p, m)| custom[ei].is_empty() || !text[p + m.len()..].starts_with('\u{336}'));
+                                if plain_flow && text.contains(&body) && !verbatim {
+                                    v.push(viol(i, "decorator affixes are not verbatim around the element", format!("wanted {:?}", want), None));
                                 }
                             }
                         }
